@@ -108,20 +108,36 @@ var (
 	VocabNames  []string // plausible attribute / class / id / tag names
 	VocabColon  []string // tokens containing ':' (meta properties, schemes)
 	VocabValues []string // any short token, usable as attribute value or text
+	VocabAttrNames []string // string arguments of the library's *Attr* calls: the attribute names it reads or writes
+	VocabPunct  []string // short tokens without letters or digits (separators, marks), surrounding spaces kept
 )
 
 func HarvestVocabulary(root string) int {
 	names, colon, values := map[string]bool{}, map[string]bool{}, map[string]bool{}
 	nums := map[int]bool{}
+	punct := map[string]bool{}
+	attrNames := map[string]bool{}
 	add := func(tok string) {
+		raw := tok
 		tok = strings.TrimSpace(tok)
-		if len(tok) < 2 || len(tok) > 40 {
+		if len(tok) < 1 || len(tok) > 40 {
 			return
 		}
+		alnum := false
 		for _, c := range tok {
-			if c < 0x21 || c > 0x7e || c == '"' || c == '<' || c == '>' || c == '\'' || c == '\\' || c == '`' {
+			if c < 0x21 || c == 0x7f || c == '"' || c == '<' || c == '>' || c == '\'' || c == '\\' || c == '`' || c == 0xfffd {
 				return
 			}
+			if c >= '0' && c <= '9' || c >= 'a' && c <= 'z' || c >= 'A' && c <= 'Z' || c > 0x2ff && !(c >= 0x2000 && c <= 0x2bff) && !(c >= 0x3000 && c <= 0x303f) && !(c >= 0xff00 && c <= 0xff65) {
+				alnum = true
+			}
+		}
+		if !alnum && len(raw) <= 8 {
+			punct[raw] = true
+			punct[tok] = true
+		}
+		if len(tok) < 2 {
+			return
 		}
 		values[tok] = true
 		if strings.Contains(tok, ":") {
@@ -161,6 +177,24 @@ func HarvestVocabulary(root string) int {
 			if is, ok := n.(*ast.ImportSpec); ok && is != nil {
 				return false
 			}
+			if call, ok := n.(*ast.CallExpr); ok {
+				fname := ""
+				switch f := call.Fun.(type) {
+				case *ast.SelectorExpr:
+					fname = f.Sel.Name
+				case *ast.Ident:
+					fname = f.Name
+				}
+				if strings.Contains(fname, "Attr") {
+					for _, a := range call.Args {
+						if lit, ok := a.(*ast.BasicLit); ok && lit.Kind == token.STRING {
+							if v, err := strconv.Unquote(lit.Value); err == nil && len(v) >= 2 && len(v) <= 30 && !strings.ContainsAny(v, " <>\"'=") {
+								attrNames[strings.ToLower(v)] = true
+							}
+						}
+					}
+				}
+			}
 			bl, ok := n.(*ast.BasicLit)
 			if ok && bl.Kind == token.INT {
 				if v, err := strconv.ParseInt(bl.Value, 0, 64); err == nil && v >= 2 && v <= 200000 {
@@ -191,7 +225,8 @@ func HarvestVocabulary(root string) int {
 		VocabNumbers = append(VocabNumbers, v)
 	}
 	sort.Ints(VocabNumbers)
-	VocabNames, VocabColon, VocabValues = keys(names), keys(colon), keys(values)
+	VocabNames, VocabColon, VocabValues, VocabPunct = keys(names), keys(colon), keys(values), keys(punct)
+	VocabAttrNames = keys(attrNames)
 	return len(VocabValues)
 }
 
